@@ -102,6 +102,37 @@ def run_battery(prop, rep):
         if bad:
             raise core.AnalysisError(f"self-test: {prop} raises {sorted({v.rule for v in bad})} on the behaviour-preserving twin {name}")
         rep.ok("SELFTEST", "twin/" + name, "silent")
+    # (2b) behaviour-preserving corpus: the refactorings written by sub-agents (benign/<id>/patch.diff, each verified to leave the generated output byte-identical)
+    # that are recorded as silent (benign/EXPECTED_SILENT.json) must stay silent; so must the mechanical whole-file rewrites of tools/benign_twins.py
+    silent_file = os.path.join(here, "benign", "EXPECTED_SILENT.json")
+    n_benign = 0
+    if os.path.exists(silent_file):
+        for bid in json.load(open(silent_file)):
+            pf = os.path.join(here, "benign", bid, "patch.diff")
+            mt = _patched(text, pf) if os.path.exists(pf) else None
+            if mt is None:
+                rep.notes.append(f"behaviour-preserving patch {bid} no longer applies to the current tree (skipped)")
+                continue
+            try:
+                bad = _run(prop, mt)
+            except core.AnalysisError as e:
+                raise core.AnalysisError(f"self-test: analysis error on the behaviour-preserving patch benign/{bid}: {e}")
+            if bad:
+                raise core.AnalysisError(f"self-test: {prop} raises {sorted({v.rule for v in bad})} on the behaviour-preserving patch benign/{bid}")
+            n_benign += 1
+        rep.ok("SELFTEST", "benign corpus", f"{n_benign} behaviour-preserving patches: silent")
+    import importlib.util
+    spec = importlib.util.spec_from_file_location("benign_twins", os.path.join(here, "tools", "benign_twins.py"))
+    bt = importlib.util.module_from_spec(spec)
+    spec.loader.exec_module(bt)
+    for name in ("invert_if", "split_and", "swap_eq", "not_in", "continue_to_nested", "else_after_exit", "flatten_else", "merge_if", "isinstance_tuple", "reverse_methods"):
+        try:
+            bad = _run(prop, bt.make(text, name))
+        except core.AnalysisError as e:
+            raise core.AnalysisError(f"self-test: analysis error on the mechanical rewrite {name}: {e}")
+        if bad:
+            raise core.AnalysisError(f"self-test: {prop} raises {sorted({v.rule for v in bad})} on the mechanical behaviour-preserving rewrite {name} (whole file)")
+        rep.ok("SELFTEST", "twin/" + name, "silent")
     kf = core.load_known_findings()
     fixed_rules = [e for e in kf.get("fixed", []) if e.get("property") == prop]
     if fixed_rules:
@@ -120,4 +151,4 @@ def run_battery(prop, rep):
                 rep.ok("SELFTEST", "history/" + e["id"], f"rule {e['rule']} fires on the pinned tree")
         else:
             rep.notes.append("pinned tree not available through git: history self-test skipped")
-    rep.analysed["selftest"] = {"seeded_fired": fired, "seeded_skipped": skipped, "twins": len(twins), "history": len(fixed_rules)}
+    rep.analysed["selftest"] = {"seeded_fired": fired, "seeded_skipped": skipped, "twins": len(twins) + 10, "benign_patches_silent": n_benign, "history": len(fixed_rules)}
